@@ -10,10 +10,16 @@ for op, sym in [("add", "+"), ("sub", "-"), ("mul", "*"), ("div", "/")]:
     for k, desc in (PAIRS if op != "div" else PAIRS[3:]):
         _hs.append(h("c09_%s_%s" % (op, k), ["C09", "C08"],
                      "a %s b for %s, every payload%s: Byte mod 2^8, Integer mod 2^64 (wrapping), IEEE with a float operand; no panic"
-                     % (sym, desc, " with a non-zero divisor" if op == "div" else "")))
+                     % (sym, desc, " with a non-zero divisor" if op == "div" else ""),
+                     # CBMC's float divider does not finish within the quick budget: value claim in the thorough tier only
+                     thorough_only=(op == "div" and "f" in k)))
 _hs.append(h("c09_rem_bb", ["C09", "C08"], "a % b for Byte x Byte with a non-zero divisor = wrapping_rem, no panic"))
 for k, desc in PAIRS[:3]:
-    _hs.append(h("c09_divrem_%s" % k, ["C09", "C08"], "a / b and a %% b for %s with a non-zero divisor: q*b + r == a (mod 2^64), |r| < |b|, r == 0 or sign(r) == sign(a) (truncated division, determines q and r uniquely; MIN / -1 = MIN); no panic" % desc))
+    _hs.append(h("c09_divrem_%s" % k, ["C09", "C08"], "a / b and a %% b for %s with a non-zero divisor: q*b + r == a (mod 2^64), |r| < |b|, r == 0 or sign(r) == sign(a) (truncated division, determines q and r uniquely; MIN / -1 = MIN); no panic" % desc,
+                 thorough_only=(k != "bi")))
+    _hs.append(h("c09_divrem_total_%s" % k, ["C09", "C08"], "a / b and a %% b for %s with a non-zero divisor never panic and yield an Integer (incl. MIN / -1)" % desc))
+_hs.append(h("c09_div_min_by_minus_one", ["C09", "C08"], "MIN / -1 == MIN and MIN % -1 == 0"))
+_hs.append(h("c09_div_float_kind", ["C09", "C08"], "float / on every float-involving kind pair: no panic, Float result (value claim: thorough tier)", kind="bounded", bound="result kind only in the quick tier"))
 
 UNIT = dict(
     name="ops",
